@@ -168,7 +168,12 @@ def _build_evaluator(
         VectorUnarySum,
         VectorExpressionSum,
     )
-    from optyx.core.matrices import QuadraticForm
+    from optyx.core.matrices import (
+        FrobeniusNorm,
+        MatrixSum,
+        MatrixVariable,
+        QuadraticForm,
+    )
 
     if isinstance(expr, Constant):
         value = expr.value
@@ -232,6 +237,23 @@ def _build_evaluator(
         Q = expr.matrix
         vec_fn = _build_vector_evaluator(expr.vector, var_indices)
         return lambda x, vf=vec_fn, Q=Q: float(vf(x) @ Q @ vf(x))
+
+    elif isinstance(expr, MatrixSum):
+        # sum of all matrix elements
+        if isinstance(expr.matrix, MatrixVariable):
+            indices = np.array(
+                [var_indices[v.name] for row in expr.matrix._variables for v in row]
+            )
+            return lambda x, idx=indices: float(np.sum(x[idx]))
+        elem_fns = [_build_evaluator(e, var_indices) for e in expr.matrix.flatten()]
+        return lambda x, fns=elem_fns: float(sum(f(x) for f in fns))
+
+    elif isinstance(expr, FrobeniusNorm):
+        # sqrt of the sum of squared elements
+        indices = np.array(
+            [var_indices[v.name] for row in expr.matrix._variables for v in row]
+        )
+        return lambda x, idx=indices: float(np.sqrt(np.sum(x[idx] ** 2)))
 
     elif isinstance(expr, VectorPowerSum):
         # sum(x ** k) - efficient numpy implementation
